@@ -67,6 +67,8 @@ def _cstr(interp, v):
     """python str for a C string value (str, or pointer into a char list)"""
     if isinstance(v, str):
         return v
+    if isinstance(v, Ptr) and isinstance(v.c, str):
+        return v.c[v.k:] if isinstance(v.k, int) and v.k >= 0 else v
     if isinstance(v, Ptr) and isinstance(v.c, list):
         out = []
         for x in v.c[v.k:]:
@@ -89,6 +91,9 @@ def _append_num(kind):
             t.add((kind, v))
         elif kind in ('U32', 'I32', 'U64', 'I64'):
             t.add(str(v))
+        elif kind == 'CharHex':
+            # sprintf("%02X", char): the char is promoted to int and printed as unsigned int
+            t.add('%02X' % (v & 0xffffffff))
         elif kind == 'U32Hex':
             t.add('%08X' % (v & 0xffffffff))
         elif kind == 'U64Hex':
